@@ -9,6 +9,12 @@ from vlib import Spec
 # --------------------------------------------------------------------------
 KINDS = {"u8": (0, 2**8 - 1), "i8": (-2**7, 2**7 - 1), "u16": (0, 2**16 - 1), "i16": (-2**15, 2**15 - 1),
          "u32": (0, 2**32 - 1), "i32": (-2**31, 2**31 - 1), "u64": (0, 2**64 - 1), "i64": (-2**63, 2**63 - 1)}
+# INTEGERs with an extension marker: the Rust type is u64 / i64 (range below); XROOT keeps the root bounds for the generator
+I64R, U64R = (-2**63, 2**63 - 1), (0, 2**64 - 1)
+XROOT = {"xs5": (-5, 5), "xu255": (0, 255), "xs128": (-128, 127), "xu32": (0, 2**32 - 1), "xs32": (-2**31, 2**31 - 1),
+         "xneg": (-2**63, -1), "xumax": (None, None), "xu5max": (5, 2**63 - 1), "xu5big": (5, 10**11), "xsbig": (-10**11, 5)}
+KINDS.update({k: (I64R if (lo is not None and lo < 0) else U64R) for k, (lo, hi) in XROOT.items()})
+
 
 
 def I(k): return ("int", k)
@@ -30,6 +36,7 @@ BLANK = SEQ(O(I("u8")), O(STR), O(LIST(BOOL)))     # a message that can be blank
 CHBLANK = CHOICE(BLANK, I("u8"))
 # DEFAULT components: ordinary (always written) components for protobuf; the ASN.1 defaults are kept aside for the generator
 DEFINNER = SEQ(R(I("u8")), R(STR), R(BOOL))
+XINT_FIELDS = ["xs5", "i8", "xu255", "u8", "xs128", "xu32", "u32", "xs32", "i32", "xneg", "xumax", "xu5max", "xu5big", "xsbig"]
 DEFCH = CHOICE(DEFINNER, I("u8"))
 
 ZOO = {
@@ -65,6 +72,9 @@ ZOO = {
     29: DEFINNER,
     30: DEFCH,
     31: SEQ(R(LIST(DEFINNER)), R(DEFCH), O(DEFINNER)),
+    32: SEQ(*([R(I(k)) for k in XINT_FIELDS] + [O(I("xs5")), O(I("xu255"))])),
+    33: SEQ(R(LIST(I("xs5"))), R(LIST(I("xu255")))),
+    34: CHOICE(I("xs5"), I("xu255"), I("u8")),
 }
 # component index -> ASN.1 DEFAULT value (strings as code tuples, enums as index)
 DEFAULTS = {26: {1: 3, 2: -5, 3: True, 4: (120,), 5: 1, 7: 1000000}, 27: {0: 3, 1: True, 3: (120,)},
@@ -72,7 +82,7 @@ DEFAULTS = {26: {1: 3, 2: -5, 3: True, 4: (120,), 5: 1, 7: 1000000}, 27: {0: 3, 
 ZOO_NAMES = {0: "Ints", 1: "Inner", 2: "Color", 3: "Prim", 4: "Opt", 5: "Lists", 6: "Ch2", 7: "Ch", 8: "ChSeq",
              9: "Lists2", 10: "Tup", 11: "TupL", 12: "UseTup", 13: "Deep", 14: "SetT", 15: "NullSeq", 16: "OptNull",
              17: "ChNull", 18: "BitsT", 19: "Nested", 20: "ChList", 21: "ListNull", 22: "Blank", 23: "ListBlank", 24: "ChBlank", 25: "SeqBlank", 26: "Defs", 27: "DefSet", 28: "DefZero",
-             29: "DefInner", 30: "DefCh", 31: "DefNest"}
+             29: "DefInner", 30: "DefCh", 31: "DefNest", 32: "XInts", 33: "XList", 34: "XCh"}
 PEQ_ZOO = {
     0: SEQ(O(I("u64")), O(STR), O(BOOL), R(LIST(I("i32"))), O(BYTES), R(BITS), O(INNER), O(LIST(STR))),
     1: CHOICE(I("u64"), INNER, STR),
@@ -399,7 +409,7 @@ def pb_field(num, t, v, out):
     if k == "bool":
         out += varint(num << 3) + [1 if v else 0]
     elif k == "int":
-        out += varint(num << 3) + varint(zigzag(v) if t[1].startswith("i") else v)
+        out += varint(num << 3) + varint(zigzag(v) if KINDS[t[1]][0] < 0 else v)
     elif k == "enum":
         out += varint(num << 3) + varint(v)
     elif k in ("str", "bytes"):
@@ -660,6 +670,47 @@ def default_cases():
     return cases
 
 
+def xint_values(kind):
+    """0, +-1, the root bounds, just outside the root, far outside (+-2^30, +-2^31, +-2^32, +-2^40, 64-bit extremes),
+    as far as the Rust type admits them"""
+    lo, hi = KINDS[kind]
+    cand = {0, 1, -1, 2**30 - 1, 2**30, -2**30, -2**30 - 1, 2**31 - 1, 2**31, -2**31, -2**31 - 1, 2**32 - 1, 2**32, -2**32,
+            2**40, -2**40, 2**63 - 1, -2**63, 2**63, 2**64 - 1}
+    rl, rh = XROOT.get(kind, (lo, hi))
+    for b in (rl, rh):
+        if b is not None:
+            cand |= {b - 1, b, b + 1}
+    return sorted(v for v in cand if lo <= v <= hi)
+
+
+def xint_cases():
+    """deterministic family: every flavour of extensible INTEGER next to its non-extensible twin, required, OPTIONAL,
+    as list element and as CHOICE alternative"""
+    cases = []
+    t = ZOO[32]
+    kinds = [ft[1] for _, ft in t[1]]
+    vals = [xint_values(k) for k in kinds]
+    for j in range(max(len(v) for v in vals)):
+        row = []
+        for (opt, _), vs in zip(t[1], vals):
+            x = vs[j % len(vs)]
+            row.append(some(x) if opt else x)
+        cases.append((32, row))
+    zero = [0] * len(XINT_FIELDS)
+    cases.append((32, zero + [NONE, NONE]))
+    for i, k in enumerate(kinds[:len(XINT_FIELDS)]):            # one component at a time away from zero
+        if k in XROOT:
+            for x in xint_values(k):
+                row = list(zero)
+                row[i] = x
+                cases.append((32, row + [NONE, NONE]))
+    xs, xu = xint_values("xs5"), xint_values("xu255")
+    cases += [(33, [[], []]), (33, [xs, xu]), (33, [xs[::-1], xu[::-1]]), (33, [[0, 2**31, -1], [2**32, 1]])]
+    cases += [(33, [[x], [y]]) for x, y in zip(xs, (xu * 2)[:len(xs)])]
+    cases += [(34, (0, x)) for x in xs] + [(34, (1, x)) for x in xu] + [(34, (2, 0)), (34, (2, 255))]
+    return cases
+
+
 def zoo_cases(rng, tier, ids=None, quick_n=110):
     """-> list of (tid, value) with coverage of boundaries, defaults, optionals, alternatives"""
     n_rand = quick_n if tier == "quick" else 2500
@@ -676,6 +727,7 @@ def zoo_cases(rng, tier, ids=None, quick_n=110):
             cases.append((tid, v))
     cases += [(tid, v) for tid, v in blank_cases() if ids is None or tid in ids]
     cases += [(tid, v) for tid, v in default_cases() if ids is None or tid in ids]
+    cases += [(tid, v) for tid, v in xint_cases() if ids is None or tid in ids]
     # every boundary of every integer kind (type 0 holds all of them)
     t0 = ZOO[0]
     kinds = [ft[1] for _, ft in t0[1]]
@@ -698,9 +750,9 @@ class C17(Spec):
                   "breaks the property; the model is tied to the crate by differential execution over a zoo of asn_to_rust! types "
                   "(dev and release), with a Python oracle for ProtobufEq and byte equality of the two writer back ends.")
     rule = ("primitive ops: varint/zig-zag/tag/uint32/bool/sfixed32 boundary families (+-2^k+-1, type extremes) and random values "
-            "with tails; raw reads of random/biased bytes incl. UTF-8 edge sequences; zoo of 32 generated types x styles "
+            "with tails; raw reads of random/biased bytes incl. UTF-8 edge sequences; zoo of 35 generated types x styles "
             "{default-ish, random with boundary integers, big (long strings/lists)} x cap modes {exact, +3, -1} for the slice back end, "
-            "every CHOICE alternative, every boundary of every integer kind, a fixed family of blank / partly filled nested messages (list element, CHOICE alternative, required, OPTIONAL; mixed within one list), a fixed family of DEFAULT components (equal to the default, one off, at the proto3 zero value, mixed; SEQUENCE, SET, nested); ProtobufEq on hand-written derive types; malformed "
+            "every CHOICE alternative, every boundary of every integer kind, a fixed family of blank / partly filled nested messages (list element, CHOICE alternative, required, OPTIONAL; mixed within one list), a fixed family of DEFAULT components (equal to the default, one off, at the proto3 zero value, mixed; SEQUENCE, SET, nested), a fixed family of extensible INTEGERs of every flavour next to their non-extensible twins (0, +-1, root bounds, just outside, +-2^30, +-2^31, +-2^32, +-2^40, 64-bit extremes; required, OPTIONAL, list element, CHOICE alternative); ProtobufEq on hand-written derive types; malformed "
             "streams for every zoo type (random bytes, truncations, bit flips, length-field overwrites of well-formed encodings). "
             "non-trivial = the op wrote at least one byte and the read-back succeeded, or a raw read got past its first byte; "
             "distinct = distinct case line")
@@ -985,6 +1037,7 @@ class C17(Spec):
 
 C17.theorems = ["C17_varint_roundtrip", "C17_zigzag_roundtrip", "C17_tag_roundtrip", "C17_number_roundtrip",
                 "C17_roundtrip", "C17_backends_agree", "C17_known_classes", "C17_refuted_list_of_null",
+                "C17_extensible_int_fixed",
                 "C17_roundtrip_partial", "C17_roundtrip_flat_partial", "C17_backends_agree_partial",
                 "C17_optional_null_fixed", "C17_refuted_choice_null", "C17_refuted_choice_list",
                 "C17_refuted_nested_list", "C17_refuted_bitvec_excess", "C04_proto_refuted_bit_vec_short",
